@@ -870,15 +870,37 @@ func runIDs(t *testing.T, run *emit.Run, r *rand.Rand, replayOps []idOp, replayS
 				}
 				return uint64(r.Intn(5))
 			}
-			switch r.Intn(10) {
+			switch r.Intn(11) {
 			case 0, 1, 2, 3, 4:
 				o.Kind = "put"
 			case 5, 6:
 				o.Kind, o.ID = "put", pick()
+			case 10:
+				o.Kind = "removeq" // the chain's queue is removed (RemoveChainProposal -> RemoveConsensusQueue)
 			default:
 				o.Kind, o.ID = "remove", pick()
 			}
 			o.Content = int64(r.Intn(1000))
+		}
+		if o.Kind == "removeq" {
+			// Keeper.RemoveConsensusQueue, what RemoveSupportForChain calls for every queue of the removed chain.  On the
+			// pinned tree RemoveQueueCompletely never advances its iterator (endless loop on a non-empty queue), so the
+			// queue is emptied message by message first (each a Remove of the history); removing the empty queue then
+			// changes nothing in the model.
+			for _, id := range e.queueIDs(t, o.Q) {
+				if err := e.k.DeleteJob(e.ctx, e.names[o.Q], id); err != nil {
+					t.Fatal(err)
+				}
+				hist = append(hist, idOp{Kind: "remove", Q: o.Q, ID: id})
+				opsCoq = append(opsCoq, fmt.Sprintf("(ORemove %d %s, ROk)", o.Q, emit.ZU(id)))
+				okRem++
+			}
+			hist = append(hist, o)
+			if err := e.k.RemoveConsensusQueue(e.ctx, e.names[o.Q]); err != nil {
+				t.Fatal(err)
+			}
+			run.Count("ids_op", "queue-removed")
+			continue
 		}
 		hist = append(hist, o)
 		var res string
@@ -1115,7 +1137,10 @@ func TestCorr(t *testing.T) {
 		"an exhaustive sweep over ordered pairs of these special values decided by the effective-value AND the raw-classification reading; " +
 		"delivered calls (relayable items): transaction input packed from the compass ABI JSON of the repository, accepted by the real VerifyAgainstTX, reproduced by the model and read back by the model decoder; " +
 		"histories over plain and batched queues (BatchQueue.Put / ProcessBatches, staging counter seeded too, sometimes > 100 staged messages); " +
-		"late replaces (after remove, through the queue of another chain) must be refused. non-trivial = sign case with a non-empty dynamic part; id history with >=2 allocations, " +
+		"late replaces (after remove, through the queue of another chain) must be refused. " +
+		"third round: id histories also remove a chain's queue (Keeper.RemoveConsensusQueue) and go on enqueueing on the others; " +
+		"sign histories (put / in-place replace with another payload, fees, relayer or action / relayer reassignment / estimate election / remove) on one keeper, " +
+		"after every op QueuedMessagesForSigning, MessagesInQueue and MessageByID must serve for every message the signing bytes of the message as stored now. non-trivial = sign case with a non-empty dynamic part; id history with >=2 allocations, " +
 		">=1 replace/remove that succeeded and >=1 rejected op")
 
 	// corpus first
@@ -1168,6 +1193,12 @@ func TestCorr(t *testing.T) {
 				t.Fatalf("%s: %v", f, err)
 			}
 			runIDs(t, run, r, ops, rec.Start, rec.NQ)
+		case "signhist":
+			var ops []sOp
+			if err := json.Unmarshal(rec.Ops, &ops); err != nil {
+				t.Fatalf("%s: %v", f, err)
+			}
+			runSignHistory(t, run, r, ops, rec.NQ)
 		case "idsb":
 			var ops []bOp
 			if err := json.Unmarshal(rec.Ops, &ops); err != nil {
@@ -1219,6 +1250,10 @@ func TestCorr(t *testing.T) {
 		it := drawItem(r, dk[i%len(dk)])
 		makeRelayable(r, &it)
 		deliverCase(t, run, r, it)
+	}
+	// what the chain asks validators to sign, along histories with in-place changes
+	for i := 0; i < run.N/12; i++ {
+		runSignHistory(t, run, r, nil, 0)
 	}
 	// histories over batched queues
 	for i := 0; i < nIDsB; i++ {
